@@ -28,14 +28,16 @@ ACTIONS = {"DoNew": "new", "DoInsert": "insert", "DoFind": "find", "DoGet": "get
            "DoRetain": "retain", "DoDrain": "drain", "DoIntoIter": "into_iter", "DoIter": "iter",
            "DoLen": "len", "DoClear": "clear", "DoReserve": "reserve", "DoClone": "clone"}
 
-# (cfg suffix, tables, {tier: env}, situation tags that the replayed behaviours must contain)
+# (cfg suffix, tables, {tier: env}, situation tags (substring, or regex if it starts with ^) that the
+#  replayed behaviours must contain)
 CONFIGS = [
     # every key has the same hash: one long collision chain, tombstones inside the chain
     ("collide", 1, {"quick": {"HT_KEYS": 4, "HT_MAXOPS": 0}, "thorough": {"HT_KEYS": 5, "HT_MAXOPS": 0}},
-     ["reuse", "+tomb", "totomb", "tofree", "+grow", "+rehash", "+t2f", "+shrink0", "found"]),
+     ["reuse", "+tomb", "totomb", "tofree", "+grow", "+rehash", "+t2f", "+tk", "+rf", "+rt", "+shrink0", "found"]),
     # home slots 14, 15, 15, 14, 0, ...: clusters wrap around the last slot
-    ("wrap", 1, {"quick": {"HT_KEYS": 4, "HT_MAXOPS": 0}, "thorough": {"HT_KEYS": 6, "HT_MAXOPS": 0}},
-     ["+wrap", "+lastslot", "reuse", "+tomb", "totomb", "+t2f"]),
+    # (5 keys: the smallest universe in which retain can leave tombstones behind without rehashing)
+    ("wrap", 1, {"quick": {"HT_KEYS": 5, "HT_MAXOPS": 0}, "thorough": {"HT_KEYS": 6, "HT_MAXOPS": 0}},
+     ["+wrap", "+lastslot", "reuse", "+tomb", "totomb", "+t2f", "+tk", "+rf", "+rt", r"^keepall\+tk$", r"^drop[a-z0-9+]*\+tk(\+r[ft])*$"]),
     # MIN_CAP scaled to 4: growth 4 -> 8 -> 16 and shrinking with few keys
     ("small", 1, {"quick": {"HT_KEYS": 5, "HT_MAXOPS": 0}, "thorough": {"HT_KEYS": 7, "HT_MAXOPS": 0}},
      ["+grow", "+shrink", "+shrink0", "+rehash", "reuse", "+wrap"]),
@@ -102,7 +104,12 @@ def _model_check(ck, name, env, workers, timeout):
         if not res["violated"] or not bad:
             ck.add_mc(res)          # tool error, or a violation that is not one of the named invariants
             return None
-        inv, calls = bad[-1]
+        # the invariant TLC reports; its violating state's calls (several workers may print BAD lines)
+        m = re.search(r"Invariant (\w+) is violated", res["violated"])
+        inv = m.group(1) if m else ("Refines" if "Action property" in res["violated"] else bad[-1][0])
+        calls = next((c for (n, c) in reversed(bad) if n == inv), bad[-1][1])
+        op = calls[-1][0] if calls else None
+        last_action = next((a for a, o in ACTIONS.items() if o == op), last_action)
         what = "Invariant %s is violated by %s" % (inv, last_action)
         res["violated"] = what
         res["out_tail"] = json.dumps({"disabled_calls": disabled, "skipped_invariants": skipped, "hash": hashes,
@@ -113,7 +120,6 @@ def _model_check(ck, name, env, workers, timeout):
         ck.add_mc(res)
         ck.cov.setdefault("model_violations", []).append({"cfg": cfg, "what": what, "hash": hashes, "calls": calls})
         cex.append(calls)
-        op = ACTIONS.get(last_action)
         if attempt == 0:
             first_op = op
             skipped = [inv]
@@ -190,7 +196,9 @@ def c17(ck, tier, seed):
         "dropped top bit) with fill/churn/purge phases and bulk calls; every call under a watchdog (hang = data); "
         "non-trivial = behaviours containing tombstone reuse / probing across tombstones / wrap-around / rehash / grow / shrink")
     workers = 8
-    binary = vlib.build_harness()
+    # VERIF_C17_HARNESS: a scratch copy of the harness whose Cargo.toml points to a modified copy of
+    # linear-hashtbl (mutation experiments; /repo and /verif/harness stay untouched)
+    binary = vlib.build_harness(package_dir=os.environ.get("VERIF_C17_HARNESS") or vlib.HARNESS)
     files, cmds = [], []
     budget = 12000 if quick else 150000
     all_sits = {}
@@ -212,14 +220,14 @@ def c17(ck, tier, seed):
         for s, n in sits.items():
             all_sits[name + ":" + s] = n
         for tag in must_sits:
-            if not any(tag in s for s in sits):
+            if not any(re.search(tag if tag[0] == "^" else re.escape(tag), s) for s in sits):
                 ck.tool_errors.append("vacuity: no replayed behaviour of MC_HashTbl_%s contains situation %s" % (name, tag))
         bpath = os.path.join(ck.outdir, "behaviours-%s.ndjson" % name)
         with open(bpath, "w") as f:
             for p in cex:       # counterexamples of the model check first
-                f.write(json.dumps({"cfg": name + ":counterexample", "hash": hashes, "tabs": ntab, "ops": p}) + "\n")
+                f.write(json.dumps({"cfg": "model-" + name + "-counterexample", "hash": hashes, "tabs": ntab, "ops": p}) + "\n")
             for p in chosen:
-                f.write(json.dumps({"cfg": name, "hash": hashes, "tabs": ntab, "ops": p}) + "\n")
+                f.write(json.dumps({"cfg": "model-" + name, "hash": hashes, "tabs": ntab, "ops": p}) + "\n")
         ck.cov.setdefault("replay", []).append({"cfg": name, "paths_printed": n_paths, "prefix_tree_leaves": n_leaves,
                                                 "behaviours_replayed": len(chosen) + len(cex),
                                                 "calls": sum(len(p) for p in chosen), "calls_disabled_in_model": disabled, "invariants_switched_off": skipped})
@@ -235,11 +243,11 @@ def c17(ck, tier, seed):
                     ck.cov[k] = ck.cov.get(k, 0) + int(s.get("extra", {}).get(k, 0))
     ck.cov["situations_replayed"] = all_sits
     # V: random sequences
-    nrand = 3 if quick else 12
+    nrand = 4 if quick else 12
     for i in range(nrand):
         od = os.path.join(ck.outdir, "random-%d" % i)
         res = vlib.run_driver(binary, "hashtbl-random", {"seed": seed * 101 + i, "tier": tier,
-                                                          "ops": 20000 if quick else 100000, "chunk": 20000}, od)
+                                                          "ops": 25000 if quick else 100000, "chunk": 20000}, od)
         files += ck.add_driver(res)
         cmds.append(" ".join(map(str, res["cmd"])))
         for s in res["summaries"]:
